@@ -85,13 +85,13 @@ def selectors_ok(case):
     return True
 
 
-def gen_smooth(rng):
-    for _ in range(200):
-        case = G.gen_case(rng, n_ops=rng.randint(2, 8), kinds=SMOOTH)
+def gen_smooth(rng, min_free=1, kinds=None):
+    for _ in range(2000):
+        case = G.gen_case(rng, n_ops=rng.randint(2, 8) if min_free < 2 else rng.randint(4, 9), kinds=kinds or SMOOTH)
         if not selectors_ok(case):
             continue
         # only smooth kinds may be reachable outside selectors: the generator adds comparison nodes only as conditions
-        if any(n['k'] == 'beta' and not n.get('fixed') for n in case['nodes']):
+        if len({n['name'] for n in case['nodes'] if n['k'] == 'beta' and not n.get('fixed')}) >= min_free:
             return case
     raise RuntimeError('no smooth case')
 
@@ -230,6 +230,85 @@ def fd_oracle(case, o, root, db):
     return msgs
 
 
+# ============================================================================ confirm-by-repeat
+# The external engine has been seen to return, very rarely (about once in 10^4 generated cases, not reproducible on
+# the same input even in the same process), a wrong per-observation Hessian.  An alarm is therefore reported only
+# when a second evaluation of the same case raises it again; an alarm that is not reproduced is tallied and noted
+# ("transient"), never reported as a violation and never silently dropped.
+
+
+class _Stage:
+    """records what one attempt on one case reports; replayed on the real Result when the attempt is kept"""
+
+    def __init__(self):
+        self.calls, self.items, self.notes, self.target = [], [], [], None
+
+    def _do(self, name, a, k):
+        if self.target is not None:
+            getattr(self.target, name)(*a, **k)
+        else:
+            self.calls.append((name, a, k))
+
+    def count(self, *a, **k):
+        self._do('count', a, k)
+
+    def tally(self, *a, **k):
+        self._do('tally', a, k)
+
+    def violate(self, *a, **k):
+        self._do('violate', a, k)
+
+    def diverge(self, *a, **k):
+        self._do('diverge', a, k)
+
+    def keys(self):
+        return {(n, str(a[0]), k.get('where', '')) for n, a, k in self.calls if n in ('violate', 'diverge')}
+
+    def commit(self, ctx, res, keep=None):
+        for n, a, k in self.calls:
+            if n in ('violate', 'diverge') and keep is not None and (n, str(a[0]), k.get('where', '')) not in keep:
+                continue
+            getattr(res, n)(*a, **k)
+        res.notes.extend(self.notes)
+        self.target = res
+        for req, cb in self.items:
+            ctx.batch.add(req, cb)
+
+
+class _StageCtx:
+    def __init__(self, ctx, stage):
+        self._ctx, self._stage, self.batch = ctx, stage, self
+
+    def add(self, req, cb):
+        self._stage.items.append((req, cb))
+
+    def __getattr__(self, name):
+        return getattr(self._ctx, name)
+
+
+def confirmed(fn):
+    """run fn(ctx, res, case, ...) on a recorder; alarms are kept only when a second evaluation repeats them"""
+
+    def wrapper(ctx, res, *a, **k):
+        s1 = _Stage()
+        fn(_StageCtx(ctx, s1), s1, *a, **k)
+        k1 = s1.keys()
+        if not k1:
+            s1.commit(ctx, res)
+            return
+        s2 = _Stage()
+        fn(_StageCtx(ctx, s2), s2, *a, **k)
+        k2 = s2.keys()
+        if k1 != k2:
+            res.tally('transient: an alarm of one evaluation was not repeated by a second evaluation of the same case', len(k1 ^ k2))
+            res.notes.append(('transient (not reproduced on re-evaluation of the same input, not reported): ' + '; '.join(sorted(w for _, w, _ in (k1 ^ k2))))[:400])
+        s2.commit(ctx, res, keep=k1 & k2)
+
+    wrapper.__name__ = fn.__name__
+    wrapper.__doc__ = fn.__doc__
+    return wrapper
+
+
 def mat_close(a, b, tol):
     return len(a) == len(b) and all(len(r) == len(s) and all(core.close(x, y, rel=tol, abs_=tol) for x, y in zip(r, s)) for r, s in zip(a, b))
 
@@ -238,6 +317,7 @@ def vec_close(a, b, tol):
     return len(a) == len(b) and all(core.close(x, y, rel=tol, abs_=tol) for x, y in zip(a, b))
 
 
+@confirmed
 def check_case(ctx, res, case, fd=True, combos=None):
     small = {'nodes': case['nodes'], 'root': case['roots'][0], 'columns': case['columns'], 'rows': case['rows'], 'dict': case.get('dict', {})}
     try:
@@ -607,15 +687,12 @@ def freeze_vars(case, row=0):
 
 
 def gen_nodb(rng):
-    for _ in range(200):
-        case = G.gen_case(rng, n_ops=rng.randint(2, 8), kinds=SMOOTH_NODB)
-        if not selectors_ok(case):
-            continue
-        if any(n['k'] == 'beta' and not n.get('fixed') for n in case['nodes']):
-            return freeze_vars(case, rng.randrange(len(case['rows'])))
-    raise RuntimeError('no smooth case')
+    # half of the formulas with at least two free parameters (the shape of gradient arrays matters without a database)
+    case = gen_smooth(rng, min_free=rng.choice([1, 2]), kinds=SMOOTH_NODB)
+    return freeze_vars(case, rng.randrange(len(case['rows'])))
 
 
+@confirmed
 def nodb_check(ctx, res, case, fd=True):
     small = small_of(case, stream='nodb')
     names = free_names(case)
@@ -787,6 +864,7 @@ def entry_points(case, names):
     return {'get_value_and_derivatives': gvd, 'create_function': cfun, 'BIOGEME.calculate_likelihood_and_derivatives': biogeme}
 
 
+@confirmed
 def clash_check(ctx, res, case, variant):
     """property oracle: either the specification is refused, or what is reported are true derivatives"""
     small = small_of(case, stream='clash', variant=variant)
@@ -903,6 +981,7 @@ def tool_oracle(res, small, what, feval, x, f0, g0, h0, gdiff, hdiff, W, WH, whe
                     'finite, within the forward-difference error', where=where)
 
 
+@confirmed
 def fdtool_check(ctx, res, case, x, with_biogeme=False, logg=False):
     from biogeme.tools.derivatives import check_derivatives, findiff_g, findiff_h
 
@@ -1040,27 +1119,32 @@ CORPUS = [
 ]
 
 
+def too_many(ctx, res):
+    """more than 10 alarms that are not listed known findings: stop exploring"""
+    return sum(1 for v in res.violations if not _listed(ctx, v)) > 10
+
+
 def new_streams(ctx, res, rng, n_nodb, n_clash, n_fd, fd_every=1):
     for i in range(n_nodb):
         nodb_check(ctx, res, gen_nodb(rng), fd=(i % fd_every == 0))
-        if len(res.violations) > 10:
+        if too_many(ctx, res):
             return
     for i in range(n_clash):
-        case = gen_smooth(rng)
+        case = gen_smooth(rng, min_free=rng.choice([1, 2]))
         for variant, c2, refused in clash_variants(rng, case):
             if refused:
                 clash_check(ctx, res, c2, variant)
             else:
                 res.tally('clash:' + variant)
                 check_case(ctx, res, c2, fd=True, combos=[])
-        if len(res.violations) > 10:
+        if too_many(ctx, res):
             return
     for i in range(n_fd):
-        case = gen_smooth(rng)
+        case = gen_smooth(rng, min_free=rng.choice([1, 2]))
         names = free_names(case)
         for j, x in enumerate(fd_points(rng, case, names)):
             fdtool_check(ctx, res, case, x, with_biogeme=(j == 1 or i % 4 == 0), logg=(i % 5 == 0 and j == 0))
-        if len(res.violations) > 10:
+        if too_many(ctx, res):
             return
 
 
@@ -1104,7 +1188,7 @@ def check(ctx) -> Result:
     for i in range(ctx.n(150, 2500)):
         combos = all_combos() if (i % 5 == 0) else rng.sample(all_combos(), 3)
         check_case(ctx, res, gen_smooth(rng), fd=(i % 3 == 0) or not ctx.quick, combos=combos)
-        if len(res.violations) > 10:
+        if too_many(ctx, res):
             break
     new_streams(ctx, res, rng, ctx.n(60, 600), ctx.n(25, 250), ctx.n(40, 400), fd_every=2 if ctx.quick else 1)
     flags_check(ctx, res)
